@@ -1725,8 +1725,18 @@ class Interp:
                     s.ghost[("called",)] = const_int(1)      # this path of the entry function has executed a call
             if len(states) > 2 and self.is_heavy(t.get("callee")):
                 states = self.reduce_states(states, fr, 2, inst)
+            keep = None
+            if getattr(self.ctx, "keep_results", None) and fr == getattr(self.ctx, "root_frame", None) and t.get("callee") is not None:
+                c_ = self.ctx.mono.get(t["callee"])
+                for suffix, name in self.ctx.keep_results.items():
+                    if c_ is not None and c_["dpath"].endswith(suffix) and not t["dest"]["p"]:
+                        keep = name
             for s in states:
                 for s2 in self.do_call(s, fr, inst, t):
+                    if keep is not None:
+                        a_ = s2.env.get((fr, t["dest"]["l"]))
+                        if is_int(a_):
+                            s2.ghost[("result", keep)] = a_        # value returned by a named call of the entry function
                     if t["t"] is not None:
                         out.append((t["t"], s2))
             return out
@@ -1958,6 +1968,10 @@ class Interp:
             self.write_place(st, fr, inst, t["dest"], new_top(), span)
             return [st] if t["t"] is not None else []
         self.scaled_drop_check(st, fr, inst, t, callee, span)
+        if getattr(ctx, "mark_calls", None) and fr == getattr(ctx, "root_frame", None):
+            for suffix, mark in ctx.mark_calls.items():
+                if callee["dpath"].endswith(suffix):
+                    st.ghost[("visited", mark)] = const_int(1)
         ctx.callstack.append((inst, span))
         try:
             res = None
